@@ -72,8 +72,8 @@ var engineStubs = map[string]string{
 func init() {
 	stepRule := "one run = one generated DAG (1-8 steps, thorough up to 12; random acyclic depends, continueOn, retryPolicy, preconditions, maxActiveRuns, delay, handlers; per-attempt outcome scripts) executed by the real Agent/Scheduler in a simulated process with simulated step children under one seeded schedule (sticky/random/PCT, lock yields, stalls, op latencies). distinct = distinct schedule signature (hash of the sequence of (process role, op kind, resource class) over all scheduler steps); non-trivial = %s"
 	props["C01"] = propInfo{Engine: "stepsim", Level: "exploration", Rule: fmt.Sprintf(stepRule, "at least two step commands were executed; a share of the runs is the iofault variant: a third of the steps carry a script, and a seeded share (1 in 2..20) of the agent's own operations on step log files, handler log files and script files fails (ENOSPC, EIO, EMFILE; half of the failing writes are short writes; also the pipe of a step that captures its output) — order, attempt and outcome clauses are then judged from the step processes and final labels, and only the step or handler whose file was hit may be reported failed or not run"), MustProbes: []string{"run_with_file_fault"}, QuickS: 20, ThoroughS: 600}
-	props["C02"] = propInfo{Engine: "stepsim", Level: "exploration", Rule: fmt.Sprintf(stepRule, "at least two step commands were executed; a third of the runs is the iofault variant (failing operations on the agent's log, handler-log and script files), judged by the containment clause alone: no step is executed downstream of a dependency that is finally failed without continueOn.failure, canceled, or skipped without continueOn.skipped"), MustProbes: []string{"run_with_file_fault"}, QuickS: 20, ThoroughS: 600}
-	props["C03"] = propInfo{Engine: "stepsim", Level: "exploration", Rule: fmt.Sprintf(stepRule, "at least two step commands were executed, or a dry-run of a generated DAG; a third of the runs are stopped (at a seeded scheduler step or fake time) or hit the DAG timeout, and a quarter of the scheduling runs have slow history writes (fault slow_op); a share of the runs is the iofault variant: a third of the steps carry a script, and a seeded share (1 in 2..20) of the agent's own operations on step log files, handler log files and script files fails (ENOSPC, EIO, EMFILE; half of the failing writes are short writes; also the pipe of a step that captures its output) — order, attempt and outcome clauses are then judged from the step processes and final labels, and only the step or handler whose file was hit may be reported failed or not run"), MustProbes: []string{"run_with_file_fault"}, QuickS: 20, ThoroughS: 600}
+	props["C02"] = propInfo{Engine: "stepsim", Level: "exploration", Rule: fmt.Sprintf(stepRule, "at least two step commands were executed; a third of the runs is the iofault variant (failing operations on the agent's log, handler-log and script files), judged by the containment clause alone: no step is executed downstream of a dependency that is finally failed without continueOn.failure, canceled, or skipped without continueOn.skipped; a sixth of the retried steps of that variant name a working directory that does not exist: every attempt fails while the executor is created, the step must use up its retries and end failed"), MustProbes: []string{"run_with_file_fault", "missing_dir_step_launched"}, QuickS: 20, ThoroughS: 600}
+	props["C03"] = propInfo{Engine: "stepsim", Level: "exploration", Rule: fmt.Sprintf(stepRule, "at least two step commands were executed, or a dry-run of a generated DAG; a third of the runs are stopped (at a seeded scheduler step or fake time) or hit the DAG timeout, and a quarter of the scheduling runs have slow history writes (fault slow_op); a share of the runs is the iofault variant: a third of the steps carry a script, and a seeded share (1 in 2..20) of the agent's own operations on step log files, handler log files and script files fails (ENOSPC, EIO, EMFILE; half of the failing writes are short writes; also the pipe of a step that captures its output) — order, attempt and outcome clauses are then judged from the step processes and final labels, and only the step or handler whose file was hit may be reported failed or not run; a sixth of the retried steps of that variant name a working directory that does not exist: every attempt fails while the executor is created, the step must use up its retries and end failed"), MustProbes: []string{"run_with_file_fault", "missing_dir_step_launched"}, QuickS: 20, ThoroughS: 600}
 	props["C04"] = propInfo{Engine: "stepsim", Level: "exploration", Rule: fmt.Sprintf(stepRule, "handlers configured, a stop injected (at a seeded scheduler step or at a seeded fake time), or a DAG precondition scripted; a fifth of the steps capture an output variable; expected outcomes are grounded in the exit statuses of the step processes; a share of the runs is the iofault variant: a third of the steps carry a script, and a seeded share (1 in 2..20) of the agent's own operations on step log files, handler log files and script files fails (ENOSPC, EIO, EMFILE; half of the failing writes are short writes; also the pipe of a step that captures its output) — order, attempt and outcome clauses are then judged from the step processes and final labels, and only the step or handler whose file was hit may be reported failed or not run"), MustProbes: []string{"exit_handler_ran", "stop_after_last_step", "run_with_file_fault"}, QuickS: 20, ThoroughS: 600}
 	props["C05"] = propInfo{Engine: "stepsim", Level: "exploration", Rule: fmt.Sprintf(stepRule, "the stop (socket /stop or SIGTERM at a seeded scheduler step) took effect while the run was alive, or the DAG timeout elapsed with steps running"), MustProbes: []string{"stop_with_live_children", "ignoring_child_at_stop", "repeat_alive_at_stop", "timeout_elapsed", "signal_on_stop_delivered", "step_left_background_process"}, QuickS: 25, ThoroughS: 600}
 	props["C12"] = propInfo{Engine: "stepsim", Level: "exploration", Rule: "one run = a generated DAG of 1-3 steps with a subset of {stdout file, stderr file, output variable}, retries 0-2, scripted byte patterns on stdout/stderr (sizes around 4 KiB / 64 KiB boundaries, seeded chunking, interleaving), exec-style children (bytes through os/exec-like pipes and copy goroutines) or a direct-write executor; files are compared byte-exactly after the run; a quarter of the runs are stopped, a third of those exactly when the agent opens the log file of a step's second attempt. distinct = distinct schedule signature; non-trivial = some step printed at least one byte", MustProbes: []string{"cfg_retry+stdout", "cfg_stderr+direct", "cfg_plain"}, QuickS: 20, ThoroughS: 600}
